@@ -56,6 +56,13 @@ class ApplicationTools
 {
 public:
   /**
+   * @brief The largest number of values that one range ("from-to") of getVectorParameter() expands to.
+   *
+   * A longer range (e.g. "0-2147483647") raises an Exception instead of allocating memory without bound.
+   */
+  static constexpr double MAX_RANGE_LENGTH = 10000000.;
+
+  /**
    * @brief The output stream where errors have to be displayed.
    */
   static std::shared_ptr<OutputStream> error;
@@ -439,6 +446,8 @@ public:
       {
         T d1 = TextTools::fromString<T>(token.substr(0, pos));
         T d2 = TextTools::fromString<T>(token.substr(pos + 1));
+        if (!(static_cast<double>(d2) - static_cast<double>(d1) < MAX_RANGE_LENGTH))
+          throw Exception("ApplicationTools::getVectorParameter(). Range too long: " + token);
         for (T j = d1; j < d2; j++)
         {
           v.push_back(j);
